@@ -91,6 +91,7 @@ def run(ctx, rep):
         w2b = [bi for bi, t in flow.calls() if callee_key(t["f"]) == "linker_utils::elf::RelocationKindInfo::write_to_buffer"]
         rep.ob("single-writer", "uses-write_to_buffer", len(w2b) >= 1, "the computed value goes through write_to_buffer (range checked, C12)", ar.file, ar.line)
     got_slot_layout(ctx, rep, F, P)
+    tlsld_offset(ctx, rep, F, P)
     rep.assume("values depend on layout addresses and the dynamic loader: not decided")
 
 
@@ -226,3 +227,32 @@ def got_slot_layout(ctx, rep, F, P):
         got = per.get(k, [])
         ok = len(got) == 1 and any(w == got[0] or got[0].replace(" ", "") == w.replace(" ", "") for w in want[k])
         rep.ob("got-slot-layout", f"reserve:{FL[k]}", ok, f"GOT bytes reserved under {FL[k]}: {got} (group size {'8' if k == 'o' else '16'})", al.file, al.line)
+
+
+def tlsld_offset(ctx, rep, F, P):
+    """The shared TLSLD GOT pair of an executable holds (module id, offset) and __tls_get_addr returns block + offset + DTPOFF. apply_relocation
+    computes DTPOFF for executables relative to the *aligned* end of the TLS segment (the thread pointer on x86-64), so the offset word must
+    be the distance from the TLS block start to that same point: tp_offset_start(layout) - tls_start_address(). The raw segment size differs
+    from it whenever the size is not a multiple of the alignment, and every un-relaxed local-dynamic access is then off by the padding."""
+    from mir import callee_key, declared_key, stable
+    rep.rule("tlsld-offset", "in write_plt_got_entries the offset word of the executable's TLSLD GOT pair derives from tp_offset_start(layout) and tls_start_address() (the same reference point DtpOff uses), not from the raw segment size")
+    b = F.body("libwild::elf_writer::write_plt_got_entries")
+    if b is None:
+        rep.lost("tlsld-offset", "elf_writer::write_plt_got_entries")
+        return
+    flow = P.flow(b)
+    n = 0
+    for bi, blk in enumerate(b.blocks):
+        for st in blk["s"]:
+            if st["k"] == "assign" and st["rv"]["k"] == "agg" and (st["rv"].get("adt") or "").endswith("Resolution") and "raw_value" in (st["rv"].get("fields") or []):
+                op = st["rv"]["ops"][st["rv"]["fields"].index("raw_value")]
+                o = flow.deep_origins(op)
+                names = {((x[1] or "").split("::")[-1]) for x in o if x[0] == "call"}
+                consts = {str(x[2] or x[1]) for x in o if x[0] == "const"}
+                if any("CURRENT_EXE_TLS_MOD" in c for c in consts) and not names:
+                    continue   # the module-id word
+                n += 1
+                ok = "tp_offset_start" in names and "tls_start_address" in names
+                rep.ob("tlsld-offset", f"offset-word#{n}", ok, f"offset word derives from calls {sorted(names)}" + ("" if ok else
+                       ": DtpOff is computed against the aligned end of the TLS segment, so the pair's offset must be tp_offset_start - tls_start_address"), b.file, st["l"])
+    rep.floor("tlsld-offset", "offset words found", n, 1)
